@@ -275,9 +275,10 @@ func checkDiags(t *rapid.T, prop, dir string, fs []fault, ds diag.Diagnostics, h
 	// (identical diagnostics are merged by the framework's Append; a missing and a conversion
 	// diagnostic for the same field in two list elements are two diagnostics)
 	type want struct {
-		e     expDiag
-		sites int
-		kind  string
+		e        expDiag
+		sites    int
+		kind     string
+		distinct map[string]bool // (documented path, missing | conversion): each is a diagnostic of its own
 	}
 	wants := map[string]*want{}
 	for _, f := range fs {
@@ -292,10 +293,11 @@ func checkDiags(t *rapid.T, prop, dir string, fs []fault, ds diag.Diagnostics, h
 			}
 			w := wants[key]
 			if w == nil {
-				w = &want{e: e, kind: f.kind}
+				w = &want{e: e, kind: f.kind, distinct: map[string]bool{}}
 				wants[key] = w
 			}
 			w.sites++ // faults at different sites of one field may produce distinct diagnostics for it
+			w.distinct[fmt.Sprintf("%s|%v", e.path, e.conversion)] = true
 		}
 	}
 	used := make([]bool, len(errs))
@@ -320,9 +322,9 @@ func checkDiags(t *rapid.T, prop, dir string, fs []fault, ds diag.Diagnostics, h
 				n++
 			}
 		}
-		if n < 1 || n > w.sites {
-			violate(t, prop+"/"+dir+"/one-diagnostic-per-fault/"+w.kind, "%s: expected one error diagnostic naming %s (at most %d for %d fault sites on it), got %d\nall error diagnostics: %v\nfaults: %s\nhistory: %s",
-				what, w.e.path, w.sites, w.sites, n, errs, describeFaults(fs), strings.Join(h.lines, " ; "))
+		if n < len(w.distinct) || n > w.sites {
+			violate(t, prop+"/"+dir+"/one-diagnostic-per-fault/"+w.kind, "%s: expected between %d and %d error diagnostics naming %s (%d fault sites on it, %d distinct kinds of complaint), got %d\nall error diagnostics: %v\nfaults: %s\nhistory: %s",
+				what, len(w.distinct), w.sites, w.e.path, w.sites, len(w.distinct), n, errs, describeFaults(fs), strings.Join(h.lines, " ; "))
 		}
 	}
 	for i, s := range errs {
@@ -708,6 +710,38 @@ func c06From(t *rapid.T, re *rootEnv, h *history) {
 	}
 	k := rapid.IntRange(2, 5).Draw(t, "nfaults")
 	var fs []fault
+	// sibling pair: the same field missing in one list/map element and wrong-typed in another
+	if coin(t, 1, 3, "siblingPair") {
+		type pair struct{ a, b int }
+		var pairs []pair
+		byPath := map[string][]int{}
+		for i, f := range sites {
+			if len(f.expect) == 1 && f.kind != fNilAttrs {
+				byPath[f.expect[0].path] = append(byPath[f.expect[0].path], i)
+			}
+		}
+		paths := make([]string, 0, len(byPath))
+		for p := range byPath {
+			paths = append(paths, p)
+		}
+		sort.Strings(paths)
+		for _, p := range paths {
+			is := byPath[p]
+			for _, a := range is {
+				for _, b := range is {
+					fa, fb := sites[a], sites[b]
+					if a < b && fa.expect[0].conversion != fb.expect[0].conversion && !isPrefix(fa.path, fb.path) && !isPrefix(fb.path, fa.path) && len(pairs) < 64 {
+						pairs = append(pairs, pair{a, b})
+					}
+				}
+			}
+		}
+		if len(pairs) > 0 {
+			pr := pairs[rapid.IntRange(0, len(pairs)-1).Draw(t, "pair")]
+			fs = append(fs, sites[pr.a], sites[pr.b])
+			st.probe("missing-and-wrong-typed-sibling-elements")
+		}
+	}
 	for i := 0; i < k; i++ {
 		f := sites[rapid.IntRange(0, len(sites)-1).Draw(t, fmt.Sprintf("site%d", i))]
 		clash := false
